@@ -116,10 +116,11 @@ func main() {
 			cases = append(cases, mk("Enc", alg, n), mk("Mac", alg, n))
 		}
 	}
-	// very long messages: more than 256 keystream blocks (a block counter kept in one octet would wrap)
+	// very long messages: more than 256 keystream blocks (a block counter kept in one octet would wrap), a bit length of 2^16 and more
+	// (a length field or a window of the keystream generator kept in 16 bits / 2048 words would wrap)
 	for _, n := range []int{4112, 8208, 16400} {
 		if *tier != "thorough" && n > 4112 {
-			continue
+			continue // (SNOW 3G over 8 KiB takes TLC minutes: the quick tier stops at 4112 octets for NEA2 and 1000 for the others)
 		}
 		cases = append(cases, mk("Enc", 2, n))
 		if *tier == "thorough" {
@@ -166,6 +167,28 @@ func main() {
 		cases = append(cases, cases[r.Intn(len(cases))])
 	}
 	rand.New(rand.NewSource(*seed)).Shuffle(len(cases), func(i, j int) { cases[i], cases[j] = cases[j], cases[i] })
+	// the very long messages are spread evenly over the trace (the trace is validated in consecutive chunks by parallel TLC processes;
+	// SNOW 3G over 8 KiB takes TLC most of a minute)
+	var long, short []tcase
+	for _, c := range cases {
+		if len(c.msg) >= 4000 {
+			long = append(long, c)
+		} else {
+			short = append(short, c)
+		}
+	}
+	if len(long) > 0 {
+		cases = cases[:0]
+		every := len(short)/len(long) + 1
+		for i, c := range short {
+			if i%every == every/2 && len(long) > 0 {
+				cases = append(cases, long[0])
+				long = long[1:]
+			}
+			cases = append(cases, c)
+		}
+		cases = append(cases, long...)
+	}
 
 	for i, c := range cases {
 		e := ev.M{"ev": c.kind, "id": i, "alg": int(c.alg), "key": ev.Ints(c.key[:]), "count": ev.BE32(c.count),
